@@ -14,7 +14,7 @@ class Universe:
     """codes grouped by how the pairing machine treats them, derived from the source by the translators"""
 
     def __init__(self):
-        rows, _ = tr_handlers.all_rows()
+        rows, _ = tr_handlers.rows_for_harness()
         self.codes = tr_handlers.last_wins(tr_handlers.codes_entries())       # id -> name
         self.decodable_names = {r[1] for r in rows}
         self.trace_names = {r[1] for r in rows if r[0] == 'trace'}
